@@ -86,16 +86,10 @@ Proof. intros [] []; simpl; split; intros H; try discriminate; reflexivity. Qed.
 Lemma txstatus_eqb_eq : forall a b, txstatus_eqb a b = true <-> a = b.
 Proof.
   intros a b. split.
-  - intros H. unfold txstatus_eqb in H. destruct a, b; simpl in *.
-    repeat (apply andb_true_iff in H; destruct H as [H ?]).
-    repeat match goal with
-    | X : (_ =? _) = true |- _ => apply Z.eqb_eq in X
-    | X : Bool.eqb _ _ = true |- _ => apply bool_eqb_eq in X
-    | X : option_eqb action_eqb _ _ = true |- _ => apply (option_eqb_spec _ action_eqb_eq) in X
-    | X : option_eqb blocker_eqb _ _ = true |- _ => apply (option_eqb_spec _ blocker_eqb_eq) in X
-    | X : option_eqb ukind_eqb _ _ = true |- _ => apply (option_eqb_spec _ ukind_eqb_eq) in X
-    | X : oz_eqb _ _ = true |- _ => apply oz_eqb_eq in X
-    end. congruence.
+  - intros H. unfold txstatus_eqb in H. rewrite !andb_true_iff in H. destruct H as [[[[[H1 H2] H3] H4] H5] H6].
+    apply Z.eqb_eq in H1. apply Bool.eqb_prop in H2. apply (option_eqb_spec _ action_eqb_eq) in H3.
+    apply (option_eqb_spec _ blocker_eqb_eq) in H4. apply (option_eqb_spec _ ukind_eqb_eq) in H5. apply oz_eqb_eq in H6.
+    destruct a, b; simpl in *; congruence.
   - intros ->. unfold txstatus_eqb. rewrite Z.eqb_refl, (proj2 (bool_eqb_eq _ _) eq_refl).
     rewrite (proj2 (option_eqb_spec _ action_eqb_eq _ _) eq_refl), (proj2 (option_eqb_spec _ blocker_eqb_eq _ _) eq_refl).
     rewrite (proj2 (option_eqb_spec _ ukind_eqb_eq _ _) eq_refl). unfold oz_eqb.
@@ -313,7 +307,7 @@ Proof.
     - destruct (status_mined s tg (dead_set s tg) t M) as [A [_ C]]. fold x in A, C. rewrite A, C. reflexivity.
     - destruct (status_never_silent s tg (dead_set s tg) t M) as [A|[A|A]]; fold x in A.
       + rewrite A. reflexivity.
-      + destruct (ts_blocked x); [simpl; apply orb_true_r|congruence].
+      + destruct (ts_blocked x); [simpl; rewrite orb_true_r; reflexivity|congruence].
       + rewrite A. simpl. apply orb_true_r. }
   rewrite E4. simpl.
   destruct (ts_action x) as [[|]|] eqn:A; try reflexivity.
@@ -325,13 +319,13 @@ Theorem bridge_event : forall pre ev post out, NoDup (map t_id (m_txs pre)) ->
   match model_event pre ev with Some (s', o) => s' = post /\ o = out | None => False end ->
   prop_event pre ev post out = true.
 Proof.
-  intros pre ev post out ND H. destruct (model_event pre ev) as [[s' o]|] eqn:M; [|contradiction].
+  intros pre ev post out NDP H. destruct (model_event pre ev) as [[s' o]|] eqn:M; [|contradiction].
   destruct H as [-> ->]. pose proof (model_event_gstep _ _ _ _ M) as G.
   unfold prop_event. destruct (gevent_of pre ev) as [g|] eqn:GE.
   2:{ assert (TS : terminal_sticky_b false post post = true)
         by (unfold terminal_sticky_b; destruct (is_terminal_status _); [rewrite (proj2 (status_eqb_eq _ _) eq_refl)|]; reflexivity).
       destruct ev; try discriminate; subst; simpl; rewrite (monotone_b_ok _ _ (monotone_refl _)), TS; simpl; [reflexivity|].
-      simpl in M. inversion M; subst. rewrite statuses_ok by exact ND. reflexivity. }
+      simpl in M. inversion M; subst. rewrite statuses_ok by exact NDP. reflexivity. }
   pose proof (step_lifecycle _ _ _ G) as L. pose proof (terminal_sticky_b_ok _ _ _ G) as T.
   destruct ev; simpl in GE; inversion GE; subst; clear GE; simpl in L, T |- *;
     try (rewrite (monotone_b_ok _ _ L), T; simpl in M; inversion M; subst; reflexivity).
